@@ -31,7 +31,7 @@ pub fn prop() -> Prop {
     }
 }
 
-pub const OPS: [&str; 13] = ["format", "format_flat", "tree_format(true)", "tree_format(false)", "diagnostic_annotated", "hex", "register_tags", "known_value_by_name", "known_value_name", "function_name", "parameter_name", "tag_name", "register_custom_tag"];
+pub const OPS: [&str; 14] = ["format", "format_flat", "tree_format(true)", "tree_format(false)", "diagnostic_annotated", "hex", "register_tags", "known_value_by_name", "known_value_name", "function_name", "parameter_name", "tag_name", "register_custom_tag", "register_tags_in(private)+format_opt"];
 pub const CUSTOM_TAG: u64 = 77777;
 
 #[derive(Clone, Debug)]
@@ -100,7 +100,7 @@ pub fn decode_program(data: &[u8]) -> Program {
         let n = 1 + src.below(6);
         let mut steps = Vec::new();
         for _ in 0..n {
-            let op = src.weighted(&[14, 10, 10, 8, 8, 6, 10, 8, 8, 6, 6, 6, 7]);
+            let op = src.weighted(&[14, 10, 10, 8, 8, 6, 10, 8, 8, 6, 6, 6, 7, 8]);
             steps.push(Step { op, env: src.below(n_env), arg: src.below(8), jitter_us: src.below(51) as u64 });
         }
         threads.push(steps);
@@ -143,6 +143,13 @@ pub fn run_step(e: &Envelope, s: &Step) -> String {
             let b = bc_envelope::parameters::GLOBAL_PARAMETERS.get();
             let store = b.as_ref().unwrap();
             store.name(&Parameter::from([1u64, 2, 3, 4, 5, 99, 12, 0][s.arg % 8]))
+        }
+        13 => {
+            // a caller-owned context: register the standard tags in it and format with it. Touches no global
+            // format context, but may consult the global registries while other threads initialise them.
+            let mut private = bc_envelope::FormatContext::default();
+            bc_envelope::register_tags_in(&mut private);
+            e.format_opt(Some(&private))
         }
         12 => {
             // a caller's own registration in the global format context (what register_tags() does for the
@@ -187,8 +194,10 @@ pub fn child_main(mode: &str, hex_program: &str) -> i32 {
                 bc_envelope::register_tags();
             }
             let with_custom = mode.ends_with("-custom");
+            // like the racing threads, work on decoded copies (a decoded known value carries no assigned name)
+            let envs: Vec<Envelope> = envs_bytes.iter().map(|x| Envelope::try_from_cbor_data(x.clone()).unwrap()).collect();
             let emit = |ti: usize, si: usize, s: &Step| {
-                let r = std::panic::catch_unwind(|| run_step(&prog.envs[s.env], s));
+                let r = std::panic::catch_unwind(std::panic::AssertUnwindSafe(|| run_step(&envs[s.env], s)));
                 match r {
                     Ok(t) => println!("R {} {} {}", ti, si, hex::encode(t)),
                     Err(p) => {
@@ -205,7 +214,7 @@ pub fn child_main(mode: &str, hex_program: &str) -> i32 {
                 if pass == 1 && with_custom {
                     // the custom registration is in place before any formatting call (it initialises the
                     // format context, so the S0 pass of the tag-name lookups comes first)
-                    let _ = run_step(&prog.envs[0], &Step { op: 12, env: 0, arg: 0, jitter_us: 0 });
+                    let _ = run_step(&envs[0], &Step { op: 12, env: 0, arg: 0, jitter_us: 0 });
                 }
                 for (ti, steps) in prog.threads.iter().enumerate() {
                     for (si, s) in steps.iter().enumerate() {
